@@ -36,7 +36,7 @@ def generate(ctx):
               if method == 'cycles' else {'burst_fraction_threshold': float(rng.choice([0.5, 1.0])), 'min_n_cycles': int(rng.choice([1, 3]))})
         bk = {'amp_threshes': [0.5, 1.5]} if (method == 'amp' and rng.random() < 0.5) else None
         cases.append(dict(sig=proto.arr2hex(s['sig']), fs=s['fs'], f_range=list(s['f_range']), fk=fk, boundary=(None if rng.random() < 0.5 else int(rng.choice([0, 5, 30]))),
-                          method=method, th=th, bk=bk, family=s['family'], rs=bool(rng.random() < 0.65)))
+                          method=method, th=th, bk=bk, family=s['family'], rs=bool(rng.random() < 0.65), pres=implutil.pick_presentation(rng, 0.3), reuse=bool(rng.random() < 0.25)))
     return cases
 
 _objs = {}
@@ -48,6 +48,11 @@ def _run(c, sig, center):
         if bk and 'amp_threshes' in bk: bk['amp_threshes'] = tuple(bk['amp_threshes'])
         _objs['v'] = (bk, dict(c['th']) if c['th'] else {}, implutil.fe_kwargs(c['fk'], c['boundary'], None))
     bk, th, fek = _objs['v']
+    if center == 'trough' and c.get('pres') not in (None, 'array'):      # the trough-centred run receives the samples in another container / layout
+        sig = implutil.present(sig, c['pres'])
+    if center == 'peak' and c.get('reuse'):                              # the peak-centred run analyses a buffer refilled in place
+        return implutil.reuse_buffer(lambda a: implutil.quiet(compute_features, a, c['fs'], tuple(c['f_range']), center_extrema=center, burst_method=c['method'], burst_kwargs=bk,
+                                                             threshold_kwargs=th, find_extrema_kwargs=fek, return_samples=c.get('rs', True)), sig)
     return implutil.twice(lambda: implutil.quiet(compute_features, sig, c['fs'], tuple(c['f_range']), center_extrema=center, burst_method=c['method'], burst_kwargs=bk,
                                                  threshold_kwargs=th, find_extrema_kwargs=fek, return_samples=c.get('rs', True)), [sig, bk, th, fek], 'compute_features')
 
